@@ -72,6 +72,12 @@ func genC20(g *gen, tier string) *Scenario {
 	if nWaiters > 1 {
 		sc.Family = "concurrent-waiters"
 	}
+	if g.pct(8) {
+		// a snapshot of another version is rejected (nothing is loaded), then life goes on:
+		// Wait must still return for everybody
+		sc.Family += ",after-rejected-load"
+		sc.Clients[0] = append([]Op{{Kind: "save", Key: 1}, {Kind: "load", Key: 2}}, sc.Clients[0]...)
+	}
 	if g.pct(10) {
 		// the evictions one write causes: a full cache of unit entries, one heavy write, Wait
 		sc.Family = "heavy-displacement"
